@@ -81,6 +81,8 @@ extern "C" {
     fn anoncreds_w3c_credential_proof_get_attribute(handle: usize, name: *const c_char, result_p: *mut *const c_char) -> usize;
     fn anoncreds_update_revocation_status_list(cred_def: usize, reg_def: usize, reg_priv: usize, current: usize, issued: FfiList<i32>, revoked: FfiList<i32>, timestamp: i64, result_p: *mut usize) -> usize;
     fn anoncreds_create_revocation_status_list(cred_def: usize, reg_def_id: *const c_char, reg_def: usize, reg_priv: usize, issuer_id: *const c_char, by_default: i8, timestamp: i64, result_p: *mut usize) -> usize;
+    fn anoncreds_create_revocation_registry_def(cred_def: usize, cred_def_id: *const c_char, issuer_id: *const c_char, tag: *const c_char, rev_reg_type: *const c_char, max_cred_num: i64, tails_dir: *const c_char, reg_def_p: *mut usize, reg_priv_p: *mut usize) -> usize;
+    fn anoncreds_credential_offer_from_json(json: ByteBuffer, result_p: *mut usize) -> usize;
     fn anoncreds_create_or_update_revocation_state(reg_def: usize, list: usize, idx: i64, tails_path: *const c_char, old_state: usize, old_list: usize, result_p: *mut usize) -> usize;
     fn anoncreds_credential_request_from_json(json: ByteBuffer, result_p: *mut usize) -> usize;
     fn anoncreds_create_credential(cred_def: usize, cred_def_private: usize, offer: usize, request: usize, names: FfiList<*const c_char>, raws: FfiList<*const c_char>, encs: FfiList<*const c_char>, revocation: *const c_void, result_p: *mut usize) -> usize;
@@ -717,6 +719,64 @@ pub fn run(tier: &str, _seed: u64, outdir: &str) {
         // revocation status lists: creation and updates with index lists
         let mut rp = 0usize;
         unsafe { anoncreds_revocation_registry_definition_private_from_json(buf(&serde_json::to_value(&w.reg.def_priv).unwrap()), &mut rp) };
+        // 64-bit sizes and indices: whatever does not fit the registry's 32-bit index type is refused, not wrapped
+        {
+            #[repr(C)]
+            struct RevInfo {
+                reg_def: usize,
+                reg_def_private: usize,
+                status_list: usize,
+                reg_idx: i64,
+            }
+            let cid1 = cs(&w.cds[1].cred_def_id);
+            let (tag, ty, iss1) = (cs("sized"), cs("CL_ACCUM"), cs(&w.cds[1].issuer_id));
+            let _ = std::fs::create_dir_all(format!("{}/sized-tails", outdir));
+            let tdir = cs(&format!("{}/sized-tails", outdir));
+            for (nname, n) in [("beyond-u32", 4294967299i64), ("negative", -3), ("i64-min", i64::MIN), ("ok", 3)] {
+                let (mut d, mut dp) = (0usize, 0usize);
+                let rc = unsafe { anoncreds_create_revocation_registry_def(l.cred_def1, cid1.as_ptr(), iss1.as_ptr(), tag.as_ptr(), ty.as_ptr(), n, tdir.as_ptr(), &mut d, &mut dp) };
+                let fits = u32::try_from(n).is_ok();
+                let ok = if fits { rc == 0 && get_json(d).map(|v| v["value"]["maxCredNum"] == json!(n)).unwrap_or(false) } else { rc != 0 };
+                if !ok && std::env::var("AVH_DEBUG").is_ok() {
+                    eprintln!("max-cred-num {} rc={} err={:?} doc={:?}", nname, rc, last_error(), get_json(d));
+                }
+                a(&format!("create_registry:max-cred-num-{}", nname), ok, &mut out);
+            }
+            let _ = std::fs::remove_dir_all(format!("{}/sized-tails", outdir));
+            // the registry index of a credential to issue
+            let c1 = &w.cds[1];
+            let prepared = (|| -> Option<(usize, usize, usize)> {
+                let offer1 = anoncreds::issuer::create_credential_offer(c1.schema_id.as_str().try_into().ok()?, c1.cred_def_id.as_str().try_into().ok()?, &c1.kcp).ok()?;
+                let (req1, _md) = anoncreds::prover::create_credential_request(Some("entropy"), None, &c1.cred_def, &w.holders[0], "ls", &offer1).ok()?;
+                let (mut cdp1, mut oh, mut rh) = (0usize, 0usize, 0usize);
+                unsafe {
+                    anoncreds_credential_definition_private_from_json(buf(&serde_json::to_value(&c1.cred_def_priv).ok()?), &mut cdp1);
+                    anoncreds_credential_offer_from_json(buf(&serde_json::to_value(&offer1).ok()?), &mut oh);
+                    anoncreds_credential_request_from_json(buf(&serde_json::to_value(&req1).ok()?), &mut rh);
+                }
+                if cdp1 == 0 || oh == 0 || rh == 0 { None } else { Some((cdp1, oh, rh)) }
+            })();
+            if let Some((cdp1, oh, rh)) = prepared {
+                let names = [cs("name"), cs("age"), cs("sex"), cs("height")];
+                let raws = [cs("Alex"), cs("28"), cs("male"), cs("175")];
+                let np: Vec<*const c_char> = names.iter().map(|c| c.as_ptr()).collect();
+                let rwp: Vec<*const c_char> = raws.iter().map(|c| c.as_ptr()).collect();
+                for (iname, idx) in [("beyond-u32", 4294967298i64), ("negative", -1), ("i64-max", i64::MAX), ("ok", 2)] {
+                    let info = RevInfo { reg_def: l.reg_def, reg_def_private: rp, status_list: l.list0, reg_idx: idx };
+                    let mut ch = 0usize;
+                    let rc = unsafe { anoncreds_create_credential(l.cred_def1, cdp1, oh, rh, FfiList::of(&np), FfiList::of(&rwp), FfiList::empty(), &info as *const RevInfo as *const c_void, &mut ch) };
+                    let fits = u32::try_from(idx).is_ok();
+                    let ok = if fits {
+                        let mut p: *const c_char = std::ptr::null();
+                        let k = cs("rev_reg_index");
+                        rc == 0 && unsafe { anoncreds_credential_get_attribute(ch, k.as_ptr(), &mut p) } == 0 && !p.is_null() && unsafe { CStr::from_ptr(p) }.to_string_lossy() == idx.to_string()
+                    } else {
+                        rc != 0
+                    };
+                    a(&format!("create_credential:registry-index-{}", iname), ok, &mut out);
+                }
+            }
+        }
         let rid = cs(vw::REG_ID);
         let iss = cs(&w.cds[1].issuer_id);
         for (by_default, ts) in [(true, 100i64), (false, 100), (true, 0), (false, -5), (true, 4102444800)] {
@@ -729,21 +789,20 @@ pub fn run(tier: &str, _seed: u64, outdir: &str) {
         let updates: Vec<(&str, Vec<i32>, Vec<i32>, i64)> = vec![
             ("revoke-one", vec![], vec![2], 200), ("revoke-several-unordered", vec![], vec![4, 1, 3], 200), ("issue-and-revoke", vec![3], vec![2], 200), ("revoke-duplicate-index", vec![], vec![2, 2], 200),
             ("negative-revoked", vec![], vec![-2], 200), ("negative-issued", vec![-3], vec![], 200), ("negative-among-valid", vec![], vec![2, -3], 200), ("negative-both", vec![-1], vec![-1], 200),
-            ("nothing", vec![], vec![], 200), ("no-timestamp", vec![], vec![2], 0), ("out-of-range", vec![], vec![99], 200), ("both-same-index", vec![2], vec![2], 200), ("issue-first-revoke-last", vec![1], vec![5], 300),
+            ("nothing", vec![], vec![], 200), ("no-timestamp", vec![], vec![2], 0), ("nothing-no-timestamp", vec![], vec![], 0), ("nothing-negative-timestamp", vec![], vec![], -1), ("negative-timestamp", vec![], vec![2], -5), ("out-of-range", vec![], vec![99], 200), ("both-same-index", vec![2], vec![2], 200), ("issue-first-revoke-last", vec![1], vec![5], 300),
         ];
         for (uname, issued, revoked, ts) in updates.iter() {
             let set = |v: &Vec<i32>| if v.is_empty() { None } else { Some(v.iter().map(|x| *x as u32).collect::<std::collections::BTreeSet<u32>>()) };
             let native = anoncreds::issuer::update_revocation_status_list(&w.cds[1].cred_def, &w.reg.def, &w.reg.def_priv, &cur, set(issued), set(revoked), if *ts <= 0 { None } else { Some(*ts as u64) }).ok();
             let mut nh = 0usize;
             let rc = unsafe { anoncreds_update_revocation_status_list(l.cred_def1, l.reg_def, rp, l.list0, FfiList::of(issued), FfiList::of(revoked), *ts, &mut nh) };
-            // without a timestamp the library stamps the current time: compared without it
-            let strip = |mut v: Value| { if *ts <= 0 { if let Some(o) = v.as_object_mut() { o.remove("timestamp"); } } v };
-            a(&format!("update_status_list:{}", uname), match native { Some(n) => rc == 0 && get_json(nh).map(strip) == Some(strip(serde_json::to_value(&n).unwrap())), None => rc != 0 }, &mut out);
+            // without a timestamp (0 or negative through the C ABI) the list keeps the timestamp it has
+            a(&format!("update_status_list:{}", uname), match native { Some(n) => rc == 0 && get_json(nh) == Some(serde_json::to_value(&n).unwrap()), None => rc != 0 }, &mut out);
             // the holder's state for the updated list, from scratch and from the previous state
             if let (Some(nl), 0) = (get_json(nh), rc) {
                 let nlist: anoncreds::types::RevocationStatusList = serde_json::from_value(nl).unwrap();
                 let tp = cs(&w.tails_path);
-                for (sname, idx, with_old) in [("scratch", 1i64, false), ("incremental", 1, true), ("index-out-of-range", 99, false), ("negative-index", -1, false)] {
+                for (sname, idx, with_old) in [("scratch", 1i64, false), ("incremental", 1, true), ("index-out-of-range", 99, false), ("negative-index", -1, false), ("index-beyond-u32", 4294967297, false), ("index-u32-max", 4294967295, false), ("index-i64-max", i64::MAX, false), ("index-i64-min", i64::MIN, false)] {
                     let old_state: Option<anoncreds::types::CredentialRevocationState> = if with_old { serde_json::from_value(docs["state10"].clone()).ok() } else { None };
                     let native = u32::try_from(idx).ok().and_then(|i| anoncreds::prover::create_or_update_revocation_state(&w.tails_path, &w.reg.def, &nlist, i, old_state.as_ref(), if with_old { Some(&cur) } else { None }).ok());
                     let mut sh = 0usize;
